@@ -74,6 +74,10 @@ macro_rules! with_cap {
             4094 => Some($f::<4094>($($arg),*)), 4095 => Some($f::<4095>($($arg),*)), 4096 => Some($f::<4096>($($arg),*)),
             4097 => Some($f::<4097>($($arg),*)), 4098 => Some($f::<4098>($($arg),*)),
             4400 => Some($f::<4400>($($arg),*)), 7609 => Some($f::<7609>($($arg),*)), 8192 => Some($f::<8192>($($arg),*)),
+            // beyond 16-bit lengths (a `usize` capacity narrowed to `u16` somewhere would show here)
+            65534 => Some($f::<65534>($($arg),*)), 65535 => Some($f::<65535>($($arg),*)), 65536 => Some($f::<65536>($($arg),*)),
+            65537 => Some($f::<65537>($($arg),*)), 65600 => Some($f::<65600>($($arg),*)), 70000 => Some($f::<70000>($($arg),*)),
+            131072 => Some($f::<131072>($($arg),*)),
             _ => None,
         }
     };
@@ -365,6 +369,12 @@ fn handle(line: &str, big: &mut [u8]) -> String {
                     data.serialize()
                 }
                 "GA" => {
+                    // the public helper authenticators use to decide whether to emit the map at all
+                    if let Some(V::Record(slots)) = &extv {
+                        let any = slots.iter().any(|s| s.is_some());
+                        let got = glue::build_adext_ga(extv.as_ref().unwrap()).is_set();
+                        if got != any { return format!("is_set-wrong got={} members-set={}", got, any); }
+                    }
                     let data = ctap_types::ctap2::get_assertion::AuthenticatorData {
                         rp_id_hash: &rp, flags, sign_count: count,
                         attested_credential_data: if *acd == "none" { Some(ctap_types::ctap2::get_assertion::NoAttestedCredentialData) } else { None },
@@ -393,13 +403,31 @@ fn handle(line: &str, big: &mut [u8]) -> String {
                     Err(e) => { let sw: u16 = e.into(); format!("err {}", sw) }
                 }
             }
+            // the owned-command conversion is generic in the buffer's capacity: every instantiation that can hold this
+            // APDU must agree with the result `want`
+            macro_rules! also { ($want:ident; $($n:literal)*) => { $(
+                if let Ok(c) = iso7816::Command::<$n>::try_from(bytes.as_slice()) {
+                    let got = show(ctap_types::ctap1::Request::try_from(&c));
+                    if got != $want { return format!("capacity-dependent Command<{}>:{} vs:{}", $n, got.replace(' ', "_"), $want.replace(' ', "_")); }
+                }
+            )* } }
             match *mode {
                 "view" => match iso7816::command::CommandView::try_from(bytes.as_slice()) {
-                    Ok(view) => show(ctap_types::ctap1::Request::try_from(view)),
+                    Ok(view) => {
+                        let want = show(ctap_types::ctap1::Request::try_from(view));
+                        also!(want; 0 1 4 8 32 33 63 64 65 66 67 68 69 70 71 72 73 74 75 96 100 127 128 129 130 131 200 255 256 257 320 321 322 330 512 1024 2048 4096 7609);
+                        want
+                    }
                     Err(_) => "bad-apdu".into(),
                 },
                 "cmd" => match iso7816::Command::<7609>::try_from(bytes.as_slice()) {
-                    Ok(cmd) => show(ctap_types::ctap1::Request::try_from(&cmd)),
+                    Ok(cmd) => {
+                        let want = show(ctap_types::ctap1::Request::try_from(&cmd));
+                        // the conversion is generic in the command buffer's capacity: every instantiation that can hold
+                        // this APDU must agree with the largest one
+                        also!(want; 0 1 4 8 32 33 63 64 65 66 67 68 69 70 71 72 73 74 75 96 100 127 128 129 130 131 200 255 256 257 320 321 322 330 512 1024 2048 4096);
+                        want
+                    }
                     Err(_) => "bad-apdu".into(),
                 },
                 _ => "bad-case".into(),
@@ -438,9 +466,17 @@ fn handle(line: &str, big: &mut [u8]) -> String {
             let r = ctap_types::ctap1::register::Response::new(5, &key, ctap_types::Bytes::new(), ctap_types::Bytes::new(), ctap_types::Bytes::new());
             format!("ok {}", hex(&r.public_key))
         }
-        ["call2", entry, lb, req, fail] => {
+        ["call2", entry, lb, req, fail] | ["call2", entry, lb, req, fail, _] => {
             use ctap_types::ctap2::{Authenticator, Request, Response};
             use ctap_types::Rpc;
+            // optional sixth token `Variant=value`: what the handler of that kind returns
+            let canned = match toks.get(5).and_then(|c| c.split_once('=')) {
+                Some((variant, val)) => match glue::build_response(variant, V::parse(val).as_ref()) {
+                    Some(r) => Some(r),
+                    None => return "bad-case harness:_canned_response".into(),
+                },
+                None => None,
+            };
             let fail = if *fail == "-" { None } else {
                 let (m, c) = fail.split_once(':').expect("harness: fail spec");
                 Some((m.to_string(), c.parse::<u8>().expect("harness: fail code")))
@@ -454,6 +490,7 @@ fn handle(line: &str, big: &mut [u8]) -> String {
             };
             let (_, payload) = glue::dump_request(&request);
             let mut m = mock::Mock::new(fail);
+            m.canned = canned;
             let res = match (*entry, *lb) {
                 ("direct", "lb") => m.call_ctap2(&request),
                 ("rpc", "lb") => m.call(&request),
@@ -472,7 +509,36 @@ fn handle(line: &str, big: &mut [u8]) -> String {
                 Ok(_) => "ok ?".into(),
                 Err(e) => format!("err {}", e as u8),
             };
-            format!("log={} same={} res={}", if m.log.is_empty() { "-".to_string() } else { m.log.join(",") }, same, r)
+            // the response handed back is the very value the handler returned
+            #[allow(unreachable_patterns)]
+            let inner = match &res {
+                Ok(Response::MakeCredential(x)) => Some(format!("{:?}", x)), Ok(Response::GetAssertion(x)) => Some(format!("{:?}", x)),
+                Ok(Response::GetNextAssertion(x)) => Some(format!("{:?}", x)), Ok(Response::GetInfo(x)) => Some(format!("{:?}", x)),
+                Ok(Response::ClientPin(x)) => Some(format!("{:?}", x)), Ok(Response::CredentialManagement(x)) => Some(format!("{:?}", x)),
+                Ok(Response::LargeBlobs(x)) => Some(format!("{:?}", x)),
+                _ => None,
+            };
+            let altered = match (&inner, &m.returned) { (Some(a), Some(b)) if a != b => " response-altered", _ => "" };
+            format!("log={} same={} res={}{}", if m.log.is_empty() { "-".to_string() } else { m.log.join(",") }, same, r, altered)
+        }
+        ["rpcov", which, hx] => {
+            // `Rpc::call` on an authenticator that overrides the provided dispatch method
+            use ctap_types::Rpc;
+            let bytes = unhex(hx).expect("harness: hex");
+            let mut o = mock::Overriding(mock::Mock::new(None));
+            match *which {
+                "2" => {
+                    let request = match ctap_types::ctap2::Request::deserialize(&bytes) { Ok(r) => r, Err(_) => return "bad-case harness:_request_does_not_decode".into() };
+                    let _ = Rpc::<ctap_types::ctap2::Error, ctap_types::ctap2::Request<'_>, ctap_types::ctap2::Response>::call(&mut o, &request);
+                }
+                "1" => {
+                    let view = iso7816::command::CommandView::try_from(bytes.as_slice()).expect("harness: apdu");
+                    let request = match ctap_types::ctap1::Request::try_from(view) { Ok(r) => r, Err(_) => return "bad-case harness:_apdu_rejected".into() };
+                    let _ = Rpc::<ctap_types::ctap1::Error, ctap_types::ctap1::Request<'_>, ctap_types::ctap1::Response>::call(&mut o, &request);
+                }
+                _ => return "bad-case".into(),
+            }
+            if o.0.log.iter().any(|l| l.ends_with("-override")) && o.0.log.len() == 1 { "overridden".into() } else { format!("bypassed log={}", o.0.log.join(",")) }
         }
         ["call1", entry, apdu, fail] => {
             use ctap_types::ctap1::{Authenticator, Request, Response};
